@@ -355,7 +355,9 @@ func oneService(run *ev.Run, unit int64, r *rand.Rand, dir string) {
 			}
 		}
 		okSoFar = converge("growth")
-		if okSoFar && durable && (i == 3 || i == 7) {
+		// durable services restart twice on their file; in-memory services restart once on the same
+		// persistence object (Init is documented as idempotent: what was witnessed must still be there)
+		if okSoFar && ((durable && (i == 3 || i == 7)) || (!durable && i == 5)) {
 			before := map[string][]byte{}
 			for _, l := range s.logs {
 				_, before[l.id] = s.served(l.id)
@@ -372,9 +374,9 @@ func oneService(run *ev.Run, unit int64, r *rand.Rand, dir string) {
 				run.Inconclusive(err.Error())
 				return
 			}
-			closeDB, err = s.start(nil)
+			closeDB, err = s.start(mem)
 			if err != nil {
-				fail("service_does_not_restart", "restart on the same database file: "+err.Error(), map[string]any{})
+				fail("service_does_not_restart", "restart on the same store: "+err.Error(), map[string]any{})
 				return
 			}
 			for _, l := range s.logs {
